@@ -347,7 +347,7 @@ macro_rules! serde_comp {
         }
     )*};
 }
-serde_comp!(A, B, C, D, E, S, L, Z, ZA, ZB, TK);
+serde_comp!(A, B, C, D, E, S, L, Z, ZA, ZB, TK, PB);
 
 // ---------------------------------------------------------------------------------------------
 // the documented user contexts
